@@ -599,6 +599,7 @@ type Exec struct {
 	callSites map[string]map[token.Pos]int
 	nameCount map[string]int
 	nowVals  []*Val
+	tickerRefs []string // tickers created so far by the function under verification
 	lockCheck bool
 	ownsCheckOn bool
 	safetyKinds map[string]bool
@@ -1170,6 +1171,10 @@ func (ex *Exec) frameCheck(rec *recorder, pos token.Pos) {
 		// callers see the whole heap (ghost state included) havocked: no frame is claimed
 		return
 	}
+	// the dynamic-type ghost is written only for objects the function itself allocates: not part of any frame
+	delete(rec.heap, heapKey("G$", "dynType"))
+	// likewise the period of a ticker: written only for tickers the function itself creates
+	delete(rec.heap, heapKey("G$", "tickerPeriod"))
 	if c.HavocHeap && !rec.havocDone {
 		// program state may change arbitrarily; ghost effect logs only as declared
 		for k := range rec.heap {
